@@ -47,6 +47,12 @@ def gen_case(rng, tier):
         sort_then_slice_prob=0.5,
     )
     g = gen.Gen(rng, cfg)
+    if rng.random() < 0.08:
+        state = gen.hidden_collision_join(g, rng, "sql")
+        if state is not None:
+            for _ in range(rng.randint(0, 2)):
+                state = g.unary(state, g.pick_op(("calc", "proj", "sel", "dedup", "sort", "slice"))) or state
+            return gen.case_from(g, state)
     return gen.case_from(g, g.tree())
 
 
